@@ -505,6 +505,14 @@ def _validate(ob, enc, out, model, res, cache, p):
         return
     bad = []
     n = 0
+    gscale = 0.0
+    for k, v in conc.items():
+        try:
+            for b in np.asarray(v, dtype=float).ravel():
+                if b == b and abs(b) != float('inf'):
+                    gscale = max(gscale, abs(b))
+        except (TypeError, ValueError):
+            pass
     for k, v in out.items():
         if k not in conc:
             continue
@@ -523,7 +531,7 @@ def _validate(ob, enc, out, model, res, cache, p):
             except Exception:
                 continue
             n += 1
-            if not (abs(fa - fb) <= 1e-7 * max(abs(fa), abs(fb), 1e-300) + 1e-300) and not (fa != fa and fb != fb):
+            if not (abs(fa - fb) <= 1e-7 * max(abs(fa), abs(fb), 1e-300) + 1e-11 * gscale) and not (fa != fa and fb != fb):
                 bad.append('%s: term=%.15g real=%.15g' % (k, fa, fb))
     if bad and not p.assumes:
         raise RuntimeError('encoding validation mismatch at %s: %s' % (
